@@ -157,3 +157,48 @@ def distribution(cases, obs):
         else:
             c["nan_bounds" if any(math.isnan(x) for x in case["t1"] + case["t2"]) else "finite"] += 1
     return dict(c)
+
+
+def extra_checks(rng, tier, notes):
+    """Conservation through Grid.transform(method='conservative'), target_data on bounds or
+    on centres, extra dims: whenever a column's bounding values lie within the span of the
+    bins, the sum over the bins must equal the sum over the cells (inputs are chosen so
+    that float arithmetic is exact)."""
+    import math
+    import warnings
+    import numpy as np
+    from . import c08 as K8
+    out = []
+    n = 60 if tier == "quick" else 800
+    done = cols_checked = 0
+    while done < n:
+        case = K8.gen_grid(rng)
+        if case["method"] != "conservative" or case["periodic"]:
+            continue
+        done += 1
+        try:
+            g, da, target, kw, td = K8.build_grid_call(case)
+            with warnings.catch_warnings():
+                warnings.simplefilter("ignore")
+                r = g.transform(da, "Z", target, **kw)
+                # the bounds the method works on
+                tdb = td if "zo" in td.dims else g.interp(td, "Z", boundary="extend")
+            newdim = r.dims[-1]
+            lo, hi = min(case["levels"]), max(case["levels"])
+            tot_out = r.sum(newdim)
+            tot_in = da.sum("zc")
+            inside = ((tdb.min("zo") >= lo) & (tdb.max("zo") <= hi))
+            tot_out, tot_in, inside = np.broadcast_arrays(*[x.transpose(*[d for d in da.dims if d != "zc"]).values
+                                                            if hasattr(x, "dims") and set(x.dims) == set(d for d in da.dims if d != "zc")
+                                                            else None for x in (tot_out, tot_in, inside.broadcast_like(tot_in))])
+            bad = inside & (tot_out != tot_in)
+            cols_checked += int(inside.sum())
+            if bad.any():
+                out.append(({k: v for k, v in case.items()}, {"sum_bins": tot_out.tolist(), "sum_cells": tot_in.tolist()},
+                            "Grid.transform(method='conservative') does not conserve although the column's "
+                            f"target_data lies within the bins: {case}"))
+        except Exception as e:   # the wrapper must not raise on these well-posed calls
+            out.append((case, {"err": type(e).__name__ + ": " + str(e)[:200]},
+                        f"Grid.transform(method='conservative') raised {type(e).__name__} on a well-posed call"))
+    notes.append(f"conservation through Grid.transform checked on {done} calls, {cols_checked} in-span columns")
+    return out
